@@ -3,15 +3,17 @@
 (* Union of all codec modules: one expectation function Exp(op, a) used by *)
 (* both conformance directions, one law predicate and the bounded grids.   *)
 (***************************************************************************)
-EXTENDS Pus, Cfdp
+EXTENDS Pus1, Cfdp
 
 Exp(op, a) == IF op \in SpOps THEN SpExp(op, a)
               ELSE IF op \in PusOps THEN PusExp(op, a)
+              ELSE IF op \in Pus1Ops THEN Pus1Exp(op, a)
               ELSE IF op \in CfdpOps THEN CfdpExp(op, a)
               ELSE [unknown |-> op]
 
 Law(op, a) == IF op \in SpOps THEN SpLaw(op, a)
               ELSE IF op \in PusOps THEN PusLaw(op, a)
+              ELSE IF op \in Pus1Ops THEN Pus1Law(op, a)
               ELSE IF op \in CfdpOps THEN CfdpLaw(op, a)
               ELSE TRUE
 
@@ -25,6 +27,7 @@ NParts(area) == CASE area = "cfdphdr" -> CfdpHdrNParts
                   [] area = "sp" -> SpNParts
                   [] area = "tc" -> TcNParts
                   [] area = "tm" -> TmNParts
+                  [] area = "pus1" -> Pus1NParts
 
 GridPart(area, i) == CASE area = "cfdphdr" -> CfdpHdrGridPart(i, Tier)
                        [] area = "tlv" -> TlvGridPart(i)
@@ -34,4 +37,5 @@ GridPart(area, i) == CASE area = "cfdphdr" -> CfdpHdrGridPart(i, Tier)
                        [] area = "sp" -> SpGridPart(i)
                        [] area = "tc" -> TcGridPart(i)
                        [] area = "tm" -> TmGridPart(i)
+                       [] area = "pus1" -> Pus1GridPart(i)
 =============================================================================
